@@ -251,6 +251,12 @@ theorem DInv_step (d : DictFn) (s s' : CN) (e : CEv) (h : DInv d s) (hc : CInv d
         cases hs; exact DInv_terminate d s _ h
       | need =>
         simp only [CN.step, hr, hn] at hs
+        cases hre : s.rEnd with
+        | some e =>
+          simp only [hre] at hs
+          cases hs; exact DInv_terminate d s _ h
+        | none =>
+        simp only [hre] at hs
         by_cases hp : s.pending = true
         · simp only [hp, if_true] at hs
           cases hs
@@ -338,7 +344,7 @@ theorem CInv_nothing_stuck (d : DictFn) (s : CN) (h : CInv d s) (hq : s.quiescen
   | idle =>
     exfalso
     simp only [CN.step, hr] at hq1
-    split at hq1 <;> (try split at hq1) <;> simp at hq1
+    split at hq1 <;> (try split at hq1) <;> (try split at hq1) <;> simp at hq1
   | blocked src =>
     have hb := h.blk src hr
     cases src with
